@@ -151,12 +151,15 @@ PROPS = {
         'not_decided': ['the key constructors (std::string building)', 'BuildValue toData / decoder loops and StringList (only the three payload predicates they branch on are under contract)', 'BinaryEncoder / BinaryDecoder scalar codecs'],
     },
     'C17': {
-        'units': ['ninja_lex', 'shellesc'],
+        'units': ['ninja_lex', 'ninja_scope', 'shellesc'],
         'design_ref': 'DESIGN.md section 4, C17',
         'claim': 'Ninja lexer: a keyword kind is produced exactly when the token bytes are the whole keyword, every byte value '
-                 '0x00-0xFF is returned as itself (end of file only at the true end), identifier-specific mode never yields keywords; BOUNDED (not counted): '
+                 '0x00-0xFF is returned as itself (end of file only at the true end), identifier-specific mode never yields keywords; '
+                 'lookupBuildParameterImpl: a build-level binding shadows everything whatever its value, else the rule-level template is evaluated in the '
+                 'context of this build statement, else the enclosing scope is asked under the same name; $in/$in_newline are the explicit inputs '
+                 'separated by space/newline, $out all outputs, shell-quoted exactly when evaluating "command"; BOUNDED (not counted): '
                  'a shell-escaped path of up to 3 (quick) bytes, read by a model of POSIX sh word syntax, is exactly one word equal to the path',
-        'not_decided': ['agreement of scoping / variable evaluation with Ninja itself (needs Ninja as oracle)', 'include/subninja scoping', 'the parser'],
+        'not_decided': ['agreement of variable evaluation with Ninja itself (needs Ninja as oracle)', 'evalString, include/subninja scoping', 'the parser'],
     },
     'C18': {
         'units': ['ninja_valid', 'ninjadeps'],
